@@ -147,9 +147,9 @@ def limb_lemma(ex, a, ins):
                     par = z3.Xor(par, z3.ULT(idx[jj], idx[i]))
             negated = any(2 * nb * i < k <= 2 * nb * (i + 1) for k in negs)
             ex.verif_assert(par == z3.BoolVal(negated), 'the denominator is negated iff an odd number of indices are below x_i')
-        ex.events.append(('reach', 'limb lemma (batch structure of the pinned code)'))
+        ex.events.append(('note', 'limb lemma (batch structure of the pinned code)'))
     else:
-        ex.events.append(('reach', 'limb lemma (different batching structure: wrap-around check only)'))
+        ex.events.append(('note', 'limb lemma (different batching structure: wrap-around check only)'))
     ex.events.append(('reach', 'limb lemma'))
     return None
 
